@@ -248,6 +248,49 @@ def slow_writer_script(rng, kind):
     return {"kind": kind, "rate": rate * 1000, "ival": ival, "qsize": 1024, "streams": [1, 2], "steps": steps}
 
 
+def pool_script(rng, kind):
+    """content at release = content at accept while the downstream writer is slow: in every round the pacer's goroutine is
+    parked inside the writer of one packet, more packets are accepted meanwhile (pooled payload buffers must not be handed
+    out again while the writer still reads them), then the writer reads and records what it was given."""
+    rate = rng.choice([10000, 50000])
+    need = Need(kind, rate, 5)
+    steps = []
+    ident = 0
+    for _ in range(rng.choice([6, 8])):
+        ident += 1
+        steps += [{"a": "hold", "ms": rng.choice([8, 12])}, wr(ident, 1, 12 + rng.choice([1000, 1200, 1460, 300]))]
+        need.write(1472)
+        steps.append({"a": "waithold"})
+        for _ in range(rng.choice([2, 4, 6])):
+            ident += 1
+            steps.append(wr(ident, rng.choice([1, 2]), 12 + rng.choice([1000, 1200, 1460, 300, 40])))
+            need.write(1472)
+        steps.append({"a": "quiesce", "wait": need.wait() + 50})
+    steps.append({"a": "close"})
+    return {"kind": kind, "rate": rate * 1000, "ival": 5, "qsize": 1024, "streams": [1, 2], "steps": steps}
+
+
+def rate_flap_script(rng):
+    """a long backlog of small packets drains while SetRate is called 20-30 times, 10 ms apart, alternating two rates (or
+    repeating the same one): every update must leave the bucket's content alone - the cumulative envelope grants one burst
+    for the whole script plus rate x time."""
+    r1 = rng.choice([100, 200, 1000])
+    r2 = rng.choice([r1, 2 * r1, 2 * r1])
+    ival = rng.choice([1, 5])
+    nb = 52 if r1 <= 200 else 212
+    calls = rng.choice([20, 25, 30])
+    n = (FLOOR + max(r1, r2) * (10 * calls + 60)) // (8 * nb) + 10
+    need = Need("pacing", r1, ival)
+    steps = []
+    for i in range(n):
+        steps.append(wr(i + 1, rng.choice([1, 2]), nb))
+        need.write(nb)
+    for i in range(calls):
+        steps += [{"a": "sleep", "ms": 10}, {"a": "setrate", "rate": (r2 if i % 2 == 0 else r1) * 1000}]
+    steps += [{"a": "quiesce", "wait": need.wait()}, {"a": "close"}]
+    return {"kind": "pacing", "rate": r1 * 1000, "ival": ival, "qsize": 8192, "streams": [1, 2], "steps": steps}
+
+
 def nontrivial(evs):
     kind = evs[0].get("kind")
     if not any(e["a"] == "rel" for e in evs):
@@ -259,7 +302,7 @@ def nontrivial(evs):
 
 # ------------------------------------------------------------------------------------------ execution / validation
 
-def go_exec(ctx, tag, target, scripts, par):
+def go_exec(ctx, tag, target, scripts, par, extra_env=None):
     pkg, pkgname, hfile, test = TARGETS[target]
     safe = re.sub(r"[^A-Za-z0-9_.-]", "_", tag)
     inp, outp = ctx.path("C17-%s.in" % safe), ctx.path("C17-%s.trace" % safe)
@@ -268,17 +311,19 @@ def go_exec(ctx, tag, target, scripts, par):
     mapping[os.path.join(pkg, "zz_verif_pacerlib_test.go")] = (LIBTPL, pkgname)
     ov = vlib.overlay(ctx, mapping, name="overlay-%s.json" % safe)
     env = {"VERIF_IN": inp, "VERIF_OUT": outp, "VERIF_SEED": ctx.seed, "VERIF_PAR": par}
+    env.update(extra_env or {})
     rc, out = vlib.go_test(ctx, pkg, ov, "^%s$" % test, env=env, timeout=1500)
     return rc, out, outp
 
 
 def run_batches(ctx, batches, par=48):
-    """batches: [(tag, target, scripts)].  The Go tests run concurrently (they mostly sleep), TLC validates one by one."""
-    batches = [b for b in batches if b[2]]
+    """batches: [(tag, target, scripts[, extra env])].  The Go tests run concurrently (they mostly sleep), TLC validates
+    one by one."""
+    batches = [(b[0], b[1], b[2], b[3] if len(b) > 3 else None) for b in batches if b[2]]
     with concurrent.futures.ThreadPoolExecutor(max_workers=max(1, len(batches))) as ex:
-        futs = [ex.submit(go_exec, ctx, tag, target, scripts, par) for tag, target, scripts in batches]
+        futs = [ex.submit(go_exec, ctx, tag, target, scripts, par, env) for tag, target, scripts, env in batches]
         results = [f.result() for f in futs]
-    for (tag, target, scripts), (rc, out, outp) in zip(batches, results):
+    for (tag, target, scripts, _), (rc, out, outp) in zip(batches, results):
         if "VERIF-INFRA" in out:
             raise vlib.Infra("harness error in %s:\n%s" % (tag, out[-2500:]))
         ctx.cov["evaluations"] += len(scripts)
@@ -407,11 +452,17 @@ def run(ctx):
     no, nsw = (8, 8) if quick else (300, 300)
     x_tb = [overflow_script(rng) for _ in range(no)] + [slow_writer_script(rng, "pacing") for _ in range(nsw)]
     x_gcc = [slow_writer_script(rng, "leaky") for _ in range(nsw // 2)]
+    nflap, npool = (6, 12) if quick else (60, 120)
+    x_tb += [rate_flap_script(rng) for _ in range(nflap)] + [pool_script(rng, "pacing") for _ in range(npool // 3)]
+    pool = [pool_script(rng, "leaky") for _ in range(npool)]
     run_batches(ctx, [
         ("G-pacing", "pacing", tb + over),
         ("G-gcc", "gcc", gcc),
         ("T-pacing", "pacing", t_tb + over2 + c_tb + x_tb),
-        ("T-gcc", "gcc", t_gcc + c_gcc + x_gcc),
+        ("T-gcc", "gcc", t_gcc + c_gcc + x_gcc + pool[:npool // 2]),
+        # the same programs on a single P: sync.Pool then hands a buffer that was just put back to the very next Get,
+        # whichever goroutine asks (on many Ps a buffer parked in another P's private slot is not reused at once)
+        ("T-gcc-oneP", "gcc", pool, {"GOMAXPROCS": "1"}),
     ])
     ctx.assumptions += [
         "Pacer.tla is the reading of the property; acceptance = Write returned nil; the stream of a packet is the bound stream "
